@@ -69,11 +69,15 @@ def transform(scheds, seed, tier):
     if len(scheds) > bcap:
         scheds = random.Random(yata_pipe._h(seed, "events-base", len(scheds))).sample(scheds, bcap)
         scheds.sort(key=lambda m: m["bid"])
-    for s in scheds:
+    for idx, s in enumerate(scheds):
         s = {"bid": s["bid"], "cfg": dict(s["cfg"], ext=["events"]), "steps": s["steps"]}
+        if idx % 3 == 2:
+            # every third history (both offset kinds): text insertions mix in characters outside the BMP (surrogate pairs,
+            # 4 bytes), so that retain / delete lengths differ between characters, UTF-16 units and bytes
+            s["cfg"]["wide"] = True
         base.append(s)
         for m in multi_variants(s):
-            key = json.dumps([m["steps"], m["cfg"]["offset"]], sort_keys=True)
+            key = json.dumps([m["steps"], m["cfg"]["offset"], m["cfg"].get("wide", False)], sort_keys=True)
             if key not in seen:
                 seen.add(key)
                 multi.append(m)
@@ -209,7 +213,7 @@ def run_all(tier, workdir):
         for i in range(lo, min(plan["random"], lo + 6)):
             rs, rt = os.path.join(wd, "rs%d.ndjson" % i), os.path.join(wd, "rt%d.ndjson" % i)
             r1, _ncr = vlib.run_x_random(rs, rt, ["--seed", str(yata_pipe._h(seed, i, "events") % (1 << 31)),
-                                                  "--ops", str(12 if i % 2 == 0 else 40), "--ext", "events", "--gc-off", "0"],
+                                                  "--ops", str(12 if i % 2 == 0 else 40), "--ext", "events", "--gc-off", "0", "--wide", "3"],
                                          150 if tier == "quick" else 400)
             nx["behaviours"] += len(r1)
             rsch += r1
